@@ -4,6 +4,7 @@ package main
 
 import (
 	"bufio"
+	"crypto/sha256"
 	"os"
 	"strconv"
 	"strings"
@@ -26,8 +27,52 @@ func evalLine(l string) (out string) {
 		return "bad-op"
 	}
 	a := t[2:]
-	b := func(i int) []byte { return hlib.FromTok(a[i]) }
+	b := func(i int) []byte { return tokBytes(a[i]) } // ordinary token or `@<len>:<seed>` (sizes.go)
 	switch t[1] {
+	case "gen", "gensha":
+		if len(a) != 2 {
+			return "bad-op"
+		}
+		g := tokBytes("@" + a[0] + ":" + a[1])
+		if t[1] == "gen" {
+			return hlib.Tok(g)
+		}
+		d := sha256.Sum256(g)
+		return hlib.Tok(d[:])
+	case "sivgen":
+		if len(a) != 5 {
+			return "bad-op"
+		}
+		key := b(0)
+		if len(key) != 64 {
+			return "err"
+		}
+		vi := strings.Index("TCR", a[1])
+		id, err := strconv.ParseUint(a[2], 10, 32)
+		if vi < 0 || err != nil {
+			return "bad-op"
+		}
+		run := func(sub bool) string {
+			s := newSIV(nil, key, vi, uint32(id), sub)
+			ct, err := s.d.EncryptDeterministically(b(3), b(4))
+			return sivDigest(ct, err, s.pre)
+		}
+		r := run(false)
+		if vi == 2 {
+			if r2 := run(true); r2 != r {
+				return "keyset: " + r + " / subtle: " + r2
+			}
+		}
+		return r
+	case "cmacgen": // only the form sizes.go emits: the internal routine, full tag
+		if len(a) != 6 || a[0] != "0" || a[2] != "16" || a[3] != "R" || a[4] != "0" {
+			return "bad-op"
+		}
+		cm, err := aescmac.New(b(1))
+		if err != nil {
+			return "err"
+		}
+		return "ok " + hlib.Tok(cm.Compute(b(5)))
 	case "siv", "sivd":
 		if len(a) != 5 {
 			return "bad-op"
@@ -55,7 +100,7 @@ func evalLine(l string) (out string) {
 			}
 		}
 		return r
-	case "s2v", "s2vspec":
+	case "s2v", "s2vspec", "s2vspecgen":
 		s, err := dsubtle.NewAESSIV(append(b(0), make([]byte, 32)...))
 		if err != nil {
 			return "err"
@@ -67,13 +112,13 @@ func evalLine(l string) (out string) {
 			return "err"
 		}
 		return "ok " + hlib.Tok(s.VerifCtrCrypt(b(1), b(2)))
-	case "cmacspec":
+	case "cmacspec", "cmacspecgen":
 		cm, err := aescmac.New(b(0))
 		if err != nil {
 			return "err"
 		}
 		return hlib.Tok(cm.Compute(b(1)))
-	case "xorend", "xorendspec":
+	case "xorend", "xorendspec", "xorendspecgen":
 		cm, err := aescmac.New(b(0))
 		if err != nil {
 			return "err"
